@@ -1,5 +1,7 @@
 import HdVerif.Model.Json
 import HdVerif.Model.Affine
+import HdVerif.Model.AffineCalls
+import HdVerif.Model.AffineImage
 open Lean HdVerif HdVerif.Drv HdVerif.Affine
 
 def v3Json (v : V3) : Json := ratsToJson v.toList
@@ -61,6 +63,58 @@ def handed (s : String) : Except ErrKind Bool :=
 
 def pairJson (p : Rat × Rat) : Json := ratsToJson [p.1, p.2]
 def int3Json (p : Int × Int × Int) : Json := intsToJson [p.1, p.2.1, p.2.2]
+
+/-- optional value: absent key or null = none -/
+def getOpt {α} (j : Json) (k : String) (f : Json → Except String α) : Except String (Option α) :=
+  match j.getObjVal? k with
+  | .error _ => pure none
+  | .ok .null => pure none
+  | .ok v => do pure (some (← f v))
+
+def ratListOf (v : Json) : Except String (List Rat) := do
+  (← v.getArr?).toList.mapM parseRat
+
+def getBatch (j : Json) (k : String) : Except String Batch := do
+  let b ← j.getObjVal? k
+  let rows ← (← getArr b "rows").toList.mapM ratListOf
+  pure ⟨← getNat b "ndim", ← getNat b "width", ← getBool b "int", rows⟩
+
+def rowsJson (l : List (List Rat)) : Json := Json.arr (l.map ratsToJson).toArray
+
+def groupsOf (v : Json) : Except String Groups := do
+  let m ← getOpt v "measures" (fun x => do
+    let ps ← getRatList x "ps"
+    let sbs ← getOpt x "sbs" parseRat
+    pure (ps, sbs))
+  pure { measures := m, posSlide := ← getOpt v "pos_slide" ratListOf, posPatient := ← getOpt v "pos_patient" ratListOf,
+         oriPatient := ← getOpt v "ori_patient" ratListOf }
+
+def imageDsOf (v : Json) : Except String ImageDs := do
+  let coord ← getOpt v "coord" (fun x => do
+    match x with
+    | .str "slide" => pure Coord.slide
+    | .str "patient" => pure Coord.patient
+    | _ => throw "coord: slide / patient expected")
+  let tf ← getOpt v "tiled_full" (fun x => do
+    pure ({ rows := ← getInt x "rows", cols := ← getInt x "cols", totalRows := ← getInt x "trows", totalCols := ← getInt x "tcols",
+            channels := ← getNat x "channels", focalPlanes := ← getOpt x "planes" (fun y => y.getNat?) } : TiledFull))
+  let org ← getOpt v "total_origin" (fun x => do
+    pure (← getRat x "x", ← getRat x "y", ← getOpt x "z" parseRat))
+  let shared ← (match v.getObjVal? "shared" with | .ok (.obj o) => groupsOf (.obj o) | _ => pure ({} : Groups))
+  let pf ← (match v.getObjVal? "per_frame" with | .ok (.arr a) => a.toList.mapM groupsOf | _ => pure [])
+  pure { coord := coord, multiframe := ← getBool v "multiframe",
+         rootPos := (← getOpt v "root_pos" ratListOf).getD [], rootOri := (← getOpt v "root_ori" ratListOf).getD [],
+         rootPs := (← getOpt v "root_ps" ratListOf).getD [], rootSbs := ← getOpt v "root_sbs" parseRat,
+         shared := shared, perFrame := pf, tiledFull := tf, totalOrigin := org,
+         oriSlide := (← getOpt v "ori_slide" ratListOf).getD [] }
+
+def errOrJson {α} (f : α → Json) : Except ErrKind α → Json
+  | .ok v => f v
+  | .error e => Json.mkObj [("error", Json.str e.toString)]
+
+def optRatJson : Option Rat → Json
+  | some r => ratToJson r
+  | none => Json.null
 
 def handlers : List (String × Handler) := [
   ("createRotation", fun j => do
@@ -160,6 +214,50 @@ def handlers : List (String × Handler) := [
       (← getSpacing j "ps") (← getInt j "tc") (← getInt j "tr")
     pure (exceptToJson (fun (x : (Int × Int) × V3) =>
       Json.mkObj [("offsets", intsToJson [x.1.1, x.1.2]), ("position", v3Json x.2)]) r)),
+  ("call", fun j => do
+    let cls ← getStr j "cls"
+    let b ← getBatch j "batch"
+    let round := (← getOpt j "round" jsonToBool).getD false
+    let drop := (← getOpt j "drop" jsonToBool).getD false
+    let r : Except ErrKind (List (List Rat)) ← (match cls with
+      | "p2r" => do pure (pixToRefCall (← getRatList j "pos") (← getRatList j "ori") (← getSpacing j "ps") b)
+      | "i2r" => do pure (imgToRefCall (← getRatList j "pos") (← getRatList j "ori") (← getSpacing j "ps") b)
+      | "r2p" => do pure (refToPixCall (← getRatList j "pos") (← getRatList j "ori") (← getSpacing j "ps") (← getRat j "sbs") round drop b)
+      | "r2i" => do pure (refToImgCall (← getRatList j "pos") (← getRatList j "ori") (← getSpacing j "ps") (← getRat j "sbs") drop b)
+      | "p2p" => do pure (pixToPixCall (← getRatList j "pos_f") (← getRatList j "ori_f") (← getSpacing j "ps_f")
+          (← getRatList j "pos_t") (← getRatList j "ori_t") (← getSpacing j "ps_t") round b)
+      | "i2i" => do pure (imgToImgCall (← getRatList j "pos_f") (← getRatList j "ori_f") (← getSpacing j "ps_f")
+          (← getRatList j "pos_t") (← getRatList j "ori_t") (← getSpacing j "ps_t") b)
+      | _ => throw "cls: unknown class" : Except String (Except ErrKind (List (List Rat))))
+    pure (exceptToJson rowsJson r)),
+  ("mapPixelB", fun j => do
+    let r := mapPixelIntoCoordinateSystemB (← getIntList j "index") (← getRatList j "pos") (← getRatList j "ori") (← getSpacing j "ps")
+    pure (exceptToJson v3Json r)),
+  ("mapCoordB", fun j => do
+    let r := mapCoordinateIntoPixelMatrixB (← getRatList j "coordinate") (← getRatList j "pos") (← getRatList j "ori")
+      (← getSpacing j "ps") (← getOpt j "sbs" parseRat)
+    pure (exceptToJson int3Json r)),
+  ("forImage", fun j => do
+    let ds ← imageDsOf (← j.getObjVal? "ds")
+    let frame ← getOptInt j "frame"
+    let total ← getBool j "total"
+    let info := getSpatialInformation ds frame total
+    pure (okJson (Json.mkObj [
+      ("info", errOrJson (fun (x : List Rat × List Rat × List Rat × Option Rat) =>
+        Json.mkObj [("pos", ratsToJson x.1), ("ori", ratsToJson x.2.1), ("ps", ratsToJson x.2.2.1), ("sbs", optRatJson x.2.2.2)]) info),
+      ("p2r", errOrJson affJson (pixToRefForImage ds frame total)),
+      ("r2p", errOrJson affJson (refToPixForImage ds frame total)),
+      ("i2r", errOrJson affJson (imgToRefForImage ds frame total)),
+      ("r2i", errOrJson affJson (refToImgForImage ds frame total))]))),
+  ("forImages", fun j => do
+    let dsF ← imageDsOf (← j.getObjVal? "ds_f")
+    let dsT ← imageDsOf (← j.getObjVal? "ds_t")
+    let ff ← getOptInt j "frame_f"
+    let ft ← getOptInt j "frame_t"
+    let tf ← getBool j "total_f"
+    let tt ← getBool j "total_t"
+    pure (okJson (Json.mkObj [("p2p", errOrJson affJson (pixToPixForImages dsF dsT ff ft tf tt)),
+                              ("i2i", errOrJson affJson (imgToImgForImages dsF dsT ff ft tf tt))]))),
   ("roundHalfEven", fun j => do
     pure (okJson ((roundHalfEven (← getRat j "x") : Int) : Json)))
 ]
